@@ -181,12 +181,12 @@ _any_relop_any = {
     ("nonnegative", "positive"): (None, None, None, None, None, None),
     ("nonnegative", "nonnegative"): (None, None, None, None, None, None),
     ("nonnegative", "negative"): (True, True, False, False, False, True),
-    ("nonnegative", "nonpositive"): (True, True, False, False, False, True),
+    ("nonnegative", "nonpositive"): (True, None, None, False, None, None),
     ("nonpositive", "finite"): (None, None, None, None, None, None),
     ("nonpositive", "nonpositive"): (None, None, None, None, None, None),
     ("nonpositive", "negative"): (None, None, None, None, None, None),
     ("nonpositive", "positive"): (False, False, True, True, False, True),
-    ("nonpositive", "nonnegative"): (False, False, True, True, False, True),
+    ("nonpositive", "nonnegative"): (None, False, True, None, None, None),
 }
 
 
